@@ -110,7 +110,13 @@ pub fn gen(seed: u64) -> PScen {
         // read-only leaves (fan-out at most 6 everywhere)
         let nres = sc.resmap.len();
         let n = 90 + rng.below(131) as usize;
-        let mut level: Vec<Tree> = (0..n).map(|_| Tree::Leaf { reads: (0..nres).filter(|_| rng.chance(1, 5)).collect(), writes: vec![] }).collect();
+        // mostly readers; a writer now and then, so that some of these trees must be rejected
+        let mut level: Vec<Tree> = (0..n)
+            .map(|_| {
+                let w = if rng.chance(1, 40) { vec![rng.below(nres as u64) as usize] } else { vec![] };
+                Tree::Leaf { reads: (0..nres).filter(|i| rng.chance(1, 5) && !w.contains(i)).collect(), writes: w }
+            })
+            .collect();
         while level.len() > 1 {
             let mut next = Vec::new();
             let mut it = level.into_iter().peekable();
@@ -122,7 +128,8 @@ pub fn gen(seed: u64) -> PScen {
             level = next;
         }
         let big = level.pop().unwrap();
-        let side = Tree::Leaf { reads: (0..nres).filter(|_| rng.chance(1, 3)).collect(), writes: vec![] };
+        let sw = if rng.chance(1, 4) { vec![rng.below(nres as u64) as usize] } else { vec![] };
+        let side = Tree::Leaf { reads: (0..nres).filter(|i| rng.chance(1, 3) && !sw.contains(i)).collect(), writes: sw };
         sc.tree = if rng.chance(1, 2) { Tree::Par(vec![side, big]) } else { Tree::Seq(vec![Tree::Par(vec![big, side]), Tree::Leaf { reads: vec![], writes: vec![0] }]) };
         sc.ncalls = 1;
         sc.panic = None;
